@@ -5,7 +5,10 @@
    say yes for inserted keys.  [guarded] = every UNGRACEFUL restart of the history finds a disk on which
    the branch InitializeRunningEventFilter takes is fed trustworthy data (disk_ok_b); [cache_fresh] =
    every cached window equals the currently persisted one. Neither holds for all histories of the real
-   code: see the three witnesses at the end. *)
+   code: see the two witnesses at the end (stale cache, stale snapshot). Since /repo commit 5440575
+   (onReorg deletes the persisted window it re-enters) the rebuild branch needs nothing from the disk:
+   [guarded] only constrains restarts that use a snapshot, and holds for every history without a
+   graceful restart (C09_guarded_without_graceful_restart). *)
 From Coq Require Import List NArith Bool.
 From V Require Import C09.Model C09.Proofs C09.Proofs_paging C09.Proofs_inv C09.Proofs_main.
 Import ListNotations.
@@ -73,6 +76,24 @@ Theorem C09_reachable_invariant :
   guarded W member init_state ops = true -> rinv W (ensure W (run W member init_state ops)).
 Proof. exact reachable_rinv. Qed.
 Print Assumptions C09_reachable_invariant.
+
+(* a history in which no snapshot is ever written (no graceful restart) is guarded: crashes, reorgs of
+   any depth across window boundaries and rebuilds from the persisted windows need no hypothesis *)
+Theorem C09_guarded_without_graceful_restart :
+  forall (W : N) (member : list bkey -> bkey -> bool) (ops : list op),
+  (forall o, In o ops -> o <> Restart true) -> guarded W member init_state ops = true.
+Proof. exact guarded_without_graceful. Qed.
+Print Assumptions C09_guarded_without_graceful_restart.
+
+(* persisted windows never lie at or above the window of the head (what the rebuild relies on) *)
+Theorem C09_no_stale_persisted :
+  forall (W : N), 0 < W ->
+  forall (member : list bkey -> bkey -> bool) (ops : list op),
+  guarded W member init_state ops = true ->
+  let s := ensure W (run W member init_state ops) in
+  forall k pw, lookup k (persisted s) = Some pw -> k mod W = 0 /\ k + W <= lenN (chain s).
+Proof. exact reachable_keys. Qed.
+Print Assumptions C09_no_stale_persisted.
 
 (* the boolean evaluated by the harness implies the hypothesis used above *)
 Theorem C09_cache_fresh_decided : forall s, cache_fresh_b s = true -> cache_fresh s.
@@ -144,21 +165,18 @@ Proof.
 Qed.
 Print Assumptions C09_restart_snapshot_needed.
 
-(* 3. [guarded] is needed, rebuild branch: onReorg deletes the key of the EMPTY running window instead
-   of the persisted window it re-enters; after a crash the rebuild finds that stale window, continues
-   above the head, and the next Store is refused. W = 3. *)
+(* 3. regression witness for /repo commit 5440575 (W = 3): revert across the window boundary, a new
+   block below it, crash without snapshot. Before the fix the rebuild found the stale persisted window
+   [0,2], continued above the head, block 1 was not a candidate and the next Store was refused; now
+   the history is guarded, the block is a candidate, pages are exact and Store succeeds. *)
 Definition h_stale_persisted : list op :=
   [Store []; Store [[evA]]; Store []; Store []; Revert; Revert; Revert; Store [[evB]]; Restart false].
 
-Theorem C09_restart_rebuild_needed :
-  exists ops flt n,
-    guarded 3 member_exact init_state ops = false /\
-    let s := ensure 3 (run 3 member_exact init_state ops) in
-    cache_fresh_b s = true /\
-    n < lenN (chain s) /\ block_matches (chain s) flt n <> [] /\
-    cand_item 3 member_exact s flt n = Some false /\
-    snd (step 3 member_exact s (Store [])) = OErr.
-Proof.
-  exists h_stale_persisted, fB, 1. vm_compute. repeat split; try reflexivity. discriminate.
-Qed.
-Print Assumptions C09_restart_rebuild_needed.
+Example restart_rebuild_fixed :
+  guarded 3 member_exact init_state h_stale_persisted = true /\
+  let s := ensure 3 (run 3 member_exact init_state h_stale_persisted) in
+  cache_fresh_b s = true /\ persisted s = [] /\
+  cand_item 3 member_exact s fB 1 = Some true /\
+  pages 3 member_exact 20 s fB 0 10 1 1 (0, 0) = Some [Build_fev 1 0 0 evB] /\
+  snd (step 3 member_exact s (Store [])) = OOk.
+Proof. vm_compute. repeat split; reflexivity. Qed.
